@@ -125,39 +125,39 @@ Proof.
 Qed.
 
 (** * the chain follower is bounded (C13): it yields at most [fuel] clusters, whatever the FAT holds *)
-Lemma chain_go_length fuel : forall t fat i, (length (fst (chain_go fuel t fat i)) <= fuel)%nat.
+Lemma chain_go_length fuel : forall t dm fat i, (length (fst (chain_go fuel t dm fat i)) <= fuel)%nat.
 Proof.
-  induction fuel as [|f IH]; intros t fat i; cbn [chain_go]; [simpl; lia|].
+  induction fuel as [|f IH]; intros t dm fat i; cbn [chain_go]; [simpl; lia|].
   destruct ((i <? Gen.MIN_DATA_CLUSTER t) || (lenZ fat <=? i)); [simpl; lia|].
-  destruct (is_data t (nthZ fat i)).
-  - pose proof (IH t fat (nthZ fat i)) as H. destruct (chain_go f t fat (nthZ fat i)) as [r ok]. cbn [fst length] in *. lia.
+  destruct (is_data t dm (nthZ fat i)).
+  - pose proof (IH t dm fat (nthZ fat i)) as H. destruct (chain_go f t dm fat (nthZ fat i)) as [r ok]. cbn [fst length] in *. lia.
   - destruct (is_eoc t (nthZ fat i)); simpl; lia.
 Qed.
 Lemma min_data_nonneg t : 0 <= Gen.MIN_DATA_CLUSTER t.
 Proof. unfold Gen.MIN_DATA_CLUSTER. destruct (t =? 12); [lia|]. destruct (t =? 16); [lia|]. destruct (t =? 32); lia. Qed.
 (** ... each of them a data-cluster number inside the FAT: clusters 0 and 1 are never followed *)
-Lemma chain_go_in_fat fuel : forall t fat i c, In c (fst (chain_go fuel t fat i)) -> 0 <= c < lenZ fat /\ Gen.MIN_DATA_CLUSTER t <= c.
+Lemma chain_go_in_fat fuel : forall t dm fat i c, In c (fst (chain_go fuel t dm fat i)) -> 0 <= c < lenZ fat /\ Gen.MIN_DATA_CLUSTER t <= c.
 Proof.
-  induction fuel as [|f IH]; intros t fat i c H; cbn [chain_go] in H; [simpl in H; tauto|]. pose proof (min_data_nonneg t) as Hm.
+  induction fuel as [|f IH]; intros t dm fat i c H; cbn [chain_go] in H; [simpl in H; tauto|]. pose proof (min_data_nonneg t) as Hm.
   destruct ((i <? Gen.MIN_DATA_CLUSTER t) || (lenZ fat <=? i)) eqn:E; [simpl in H; tauto|].
   apply orb_false_iff in E. destruct E as [E1 E2]. apply Z.ltb_ge in E1. apply Z.leb_gt in E2.
-  destruct (is_data t (nthZ fat i)).
-  - pose proof (IH t fat (nthZ fat i) c) as H'. destruct (chain_go f t fat (nthZ fat i)) as [r ok]. cbn [fst] in *.
+  destruct (is_data t dm (nthZ fat i)).
+  - pose proof (IH t dm fat (nthZ fat i) c) as H'. destruct (chain_go f t dm fat (nthZ fat i)) as [r ok]. cbn [fst] in *.
     destruct H as [<-|H]; [lia|auto].
   - destruct (is_eoc t (nthZ fat i)); simpl in H; [destruct H as [<-|[]]; lia | tauto].
 Qed.
 (** a chain that is reported complete really is one: consecutive links ending in an end-of-chain value *)
-Lemma chain_go_ok_links fuel : forall t fat i l,
-  chain_go fuel t fat i = (l, true) ->
+Lemma chain_go_ok_links fuel : forall t dm fat i l,
+  chain_go fuel t dm fat i = (l, true) ->
   l <> [] /\ hd 0 l = i /\
-  (forall k, (S k < length l)%nat -> nth (S k) l 0 = nthZ fat (nth k l 0) /\ is_data t (nthZ fat (nth k l 0)) = true) /\
+  (forall k, (S k < length l)%nat -> nth (S k) l 0 = nthZ fat (nth k l 0) /\ is_data t dm (nthZ fat (nth k l 0)) = true) /\
   is_eoc t (nthZ fat (last l 0)) = true.
 Proof.
-  induction fuel as [|f IH]; intros t fat i l H; cbn [chain_go] in H; [discriminate|].
+  induction fuel as [|f IH]; intros t dm fat i l H; cbn [chain_go] in H; [discriminate|].
   destruct ((i <? Gen.MIN_DATA_CLUSTER t) || (lenZ fat <=? i)); [discriminate|].
-  destruct (is_data t (nthZ fat i)) eqn:Ed.
-  - destruct (chain_go f t fat (nthZ fat i)) as [r ok] eqn:Er. inversion H; subst l ok.
-    destruct (IH _ _ _ _ Er) as (Hne & Hhd & Hl & He).
+  destruct (is_data t dm (nthZ fat i)) eqn:Ed.
+  - destruct (chain_go f t dm fat (nthZ fat i)) as [r ok] eqn:Er. inversion H; subst l ok.
+    destruct (IH _ _ _ _ _ Er) as (Hne & Hhd & Hl & He).
     split; [discriminate|]. split; [reflexivity|]. split.
     + intros [|k] Hk.
       * cbn [nth]. destruct r as [|x r']; [congruence|]. cbn [hd] in Hhd. cbn [nth]. subst x. split; [reflexivity|exact Ed].
